@@ -1,7 +1,7 @@
 (* C03 — name references follow every rename and never change their referent.
    Property theorems only. Every theorem is closed by [exact] of a lemma proved elsewhere
    (Res/NameRefProofs.v, Res/RenameProofs.v, Res/C03Facts.v). *)
-From KV Require Import Res.BuildRefs Res.FsFacts Res.CsvFacts Res.NameRefProofs Res.RenameProofs Res.RewriteProofs Res.C03Facts.
+From KV Require Import Res.BuildRefs Res.FsFacts Res.CsvFacts Res.NameRefProofs Res.RenameProofs Res.RewriteProofs Res.ProgressProofs Res.BuildProofs Res.C03Facts.
 From KV Require Import Gen.NameRefRules Gen.FieldSpecs Res.NameRefRulesRef.
 
 (* ================= obligations over the tables regenerated from /repo ================= *)
@@ -264,6 +264,100 @@ Theorem C03_refs_follow_closed :
         exists t' s' v', get_addr a (r_node r') = Some (Scalar t' s' v') /\ (v' = v \/ v' = new).
 Proof. exact gen_whole_closed. Qed.
 Print Assumptions C03_refs_follow_closed.
+
+(* PROGRESS THROUGH THE WHOLE TRANSFORMER.  Full statement (DESIGN §5 C03_refs_follow) is build-level and
+   refuted below; this is its proved part at the level of nameReferenceTransformer.Transform with the
+   generated table, all rows, all referrers.  A scalar field of referrer r (not under a key "namespace",
+   not the roleRef/name field) that a row of the referent's kind reaches and that holds a text [old] such
+   that, among the resources r may refer to (SubsetThatCouldBeReferencedByResource), exactly one candidate b
+   ever had that name with the row's kind, b passing the namespace sieve, and such that in the WHOLE map
+   everything ever called [old] is called like b now and so is everything ever called like b now (no
+   intermediate-name collision, no cascade), holds b's current name afterwards -- whatever the other rows
+   that reach or do not reach the field do before and after.  ("No other row reaches this address" is NOT
+   needed: the closedness hypotheses make the other rows harmless.) *)
+Theorem C03_refs_follow_transform_partial :
+  forall cs nonstr rules m m' C,
+    effective_rules gen_gvk_order_first gen_gvk_order_last gen_nameref_raw = Ok rules ->
+    mapM (view cs) m = Ok C -> no_empty_prev C = true ->
+    nameref_transform cs nonstr rules m = Ok m' ->
+    forall i r r' org row fs flags cands b a t s old,
+      nth_error m i = Some r -> nth_error m' i = Some r' -> org_id cs r = Ok org ->
+      In row rules -> In fs (nb_referrers row) -> gvk_is_selected (id_gvk org) (fs_gvk fs) = true ->
+      has_suffix "roleRef/name" (fs_path fs) = false ->
+      referencable cs m r = Ok flags -> mapM (view cs) (select_by flags m) = Ok cands ->
+      no_ns_key a -> reaches (path_splitter (fs_path fs)) a (r_node r) = true ->
+      get_addr a (r_node r) = Some (Scalar t s old) -> is_null (Scalar t s old) = false ->
+      filter (name_kind_match (make_ctx cs r (fs_path fs) (nb_gvk row)) old) cands = [b] ->
+      namespace_sieve (make_ctx cs r (fs_path fs) (nb_gvk row)) b = true ->
+      (forall c, In c C -> prev_name_matches old c = true -> c_name c = c_name b) ->
+      (forall c, In c C -> prev_name_matches (c_name b) c = true -> c_name c = c_name b) ->
+      exists t' s', get_addr a (r_node r') = Some (Scalar t' s' (c_name b)).
+Proof. exact gen_refs_follow_transform. Qed.
+Print Assumptions C03_refs_follow_transform_partial.
+
+(* THE LAYERING LEMMA.  When every resource of the map is [produced] -- a fresh well formed document on
+   which its layers ran renaming transformers (namePrefix, nameSuffix, namespace, hash; comma free) -- and
+   no OTHER resource [may_have_been] called like the referent originally or like the referent is called
+   now (original name, or anything a sub-sequence of its transformers makes of it), then the closedness
+   hypotheses of C03_refs_follow_transform_partial hold for the referent's original name ... *)
+Theorem C03_layering_closed :
+  forall cs nonstr prov m C, Forall2 (produced cs nonstr) prov m -> mapM (view cs) m = Ok C ->
+  forall j pb b, nth_error prov j = Some pb -> nth_error C j = Some b ->
+    (forall k p, k <> j -> nth_error prov k = Some p ->
+                 may_have_been p (get_name (r_node (fst pb))) = false /\ may_have_been p (c_name b) = false) ->
+    (forall c, In c C -> prev_name_matches (get_name (r_node (fst pb))) c = true -> c_name c = c_name b) /\
+    (forall c, In c C -> prev_name_matches (c_name b) c = true -> c_name c = c_name b).
+Proof. exact (fun cs nonstr prov m C H1 H2 j pb b _ => layering_closed cs nonstr prov m C H1 H2 j pb b). Qed.
+Print Assumptions C03_layering_closed.
+
+(* ... and so does its uniqueness hypothesis, for any visible subset that contains the referent. *)
+Theorem C03_layering_unique :
+  forall cs nonstr prov m C, Forall2 (produced cs nonstr) prov m -> mapM (view cs) m = Ok C ->
+  forall j pb b, nth_error prov j = Some pb -> nth_error C j = Some b ->
+    (forall k p, k <> j -> nth_error prov k = Some p ->
+                 may_have_been p (get_name (r_node (fst pb))) = false /\ may_have_been p (c_name b) = false) ->
+    forall flags cands x,
+      mapM (view cs) (select_by flags m) = Ok cands -> nth_error flags j = Some true ->
+      name_kind_match x (get_name (r_node (fst pb))) b = true ->
+      filter (name_kind_match x (get_name (r_node (fst pb)))) cands = [b].
+Proof. exact (fun cs nonstr prov m C H1 H2 j pb b _ => layering_unique cs nonstr prov m C H1 H2 j pb b). Qed.
+Print Assumptions C03_layering_unique.
+
+(* BUILD LEVEL (rename model followed by the name reference model = build_refs, Res/BuildRefs.v;
+   Res/Pipeline.v runs the same two models inside the integrated build).  [build_prov l hs] lists every leaf
+   of the layering with the renaming transformers of the kustomizations on its way (namespace, prefix,
+   suffix of each layer, innermost first, then the content hash); theorem build_names_prov
+   (Res/BuildProofs.v) shows the map just before FixBackReferences is exactly these leaves so transformed.
+   Then: a reference (scalar, not under "namespace", not roleRef/name) reached by a row of the referent's
+   kind, holding the ORIGINAL name of leaf j, that leaf being visible to the referrer and accepted by the
+   first two sieves and the namespace sieve, ends as leaf j's FINAL name, provided no other leaf
+   [may_have_been] called like leaf j originally or finally (original name or anything a sub-sequence of
+   its transformers makes of it -- the "no prefix/suffix extension of another along the chain" boolean).
+   build_refs = Ok out is equivalent to the first three premises (lemma build_refs_split).
+   This is the proved part of the DESIGN's C03_refs_follow; the full statement (only "original triples
+   unique") is refuted below. *)
+Theorem C03_refs_follow_build_partial :
+  forall cs nonstr l hs m rules out C,
+    gen_build_names cs nonstr l hs = Ok m ->
+    effective_rules gen_gvk_order_first gen_gvk_order_last gen_nameref_raw = Ok rules ->
+    nameref_transform cs nonstr rules m = Ok out ->
+    Forall leaf_ok (build_prov l hs) -> mapM (view cs) m = Ok C -> no_empty_prev C = true ->
+    forall i r r' org row fs flags cands j pb b a t s,
+      nth_error m i = Some r -> nth_error out i = Some r' -> org_id cs r = Ok org ->
+      In row rules -> In fs (nb_referrers row) -> gvk_is_selected (id_gvk org) (fs_gvk fs) = true ->
+      has_suffix "roleRef/name" (fs_path fs) = false ->
+      referencable cs m r = Ok flags -> mapM (view cs) (select_by flags m) = Ok cands ->
+      no_ns_key a -> reaches (path_splitter (fs_path fs)) a (r_node r) = true ->
+      get_addr a (r_node r) = Some (Scalar t s (get_name (r_node (fst pb)))) ->
+      is_null (Scalar t s (get_name (r_node (fst pb)))) = false ->
+      nth_error (build_prov l hs) j = Some pb -> nth_error C j = Some b -> nth_error flags j = Some true ->
+      name_kind_match (make_ctx cs r (fs_path fs) (nb_gvk row)) (get_name (r_node (fst pb))) b = true ->
+      namespace_sieve (make_ctx cs r (fs_path fs) (nb_gvk row)) b = true ->
+      (forall k p, k <> j -> nth_error (build_prov l hs) k = Some p ->
+                   may_have_been p (get_name (r_node (fst pb))) = false /\ may_have_been p (c_name b) = false) ->
+      exists t' s', get_addr a (r_node r') = Some (Scalar t' s' (c_name b)).
+Proof. exact refs_follow_build. Qed.
+Print Assumptions C03_refs_follow_build_partial.
 
 (* ================= what the faithful model refutes (each confirmed on the implementation) ================= *)
 
